@@ -751,6 +751,15 @@ loop:
 
 					sc.writeReset(fr.Stream(), RefusedStreamError)
 
+					// The header block of a stream we refuse still changes
+					// the compression state both ends share (RFC 7540 4.3).
+					if fr.Type() == FrameHeaders {
+						if err := sc.discardHeaderBlock(fr); err != nil {
+							sc.writeGoAway(fr.Stream(), CompressionError, err.Error())
+							break loop
+						}
+					}
+
 					continue
 				}
 
@@ -1316,6 +1325,25 @@ func (sc *serverConn) handleHeaderFrame(strm *Stream, fr *FrameHeader) error {
 		}
 
 		fieldsProcessed++
+	}
+
+	return err
+}
+
+// discardHeaderBlock runs a header block fragment through the HPACK decoder
+// for its effect on the dynamic table only.
+func (sc *serverConn) discardHeaderBlock(fr *FrameHeader) error {
+	hf := AcquireHeaderField()
+	defer ReleaseHeaderField(hf)
+
+	b := fr.Body().(FrameWithHeaders).Headers()
+	fields := 0
+
+	var err error
+
+	for len(b) > 0 && err == nil {
+		b, err = sc.dec.nextField(hf, true, fields, b)
+		fields++
 	}
 
 	return err
